@@ -942,6 +942,13 @@ func (s *sim) awaitRest(l *ccb.Listener) bool {
 		if time.Now().After(deadline) {
 			if s.o.Liveness == "" {
 				s.o.Liveness = "NoReply"
+				if bc := s.cur(); bc != nil {
+					select {
+					case <-bc.done: // the listener has closed the connection and did not come back
+						s.o.Liveness = "NoRegistration"
+					default:
+					}
+				}
 			}
 			return false
 		}
